@@ -55,6 +55,31 @@ fn rnd4(rng: &mut Rng) -> [u8; 4] {
 /// list lengths explored for every list-valued field
 pub const LENS: [usize; 5] = [0, 1, 2, 3, 17];
 
+thread_local! {
+    static SCALE: std::cell::Cell<bool> = std::cell::Cell::new(false);
+}
+
+/// Scale mode (one draw in thirty-two, set by the driver): the larger list-length classes become
+/// long lists and variable payloads become large, so that thresholds that arise from type
+/// widths (u8 / u16 counters and sums) and from batch / buffer sizes (1 KiB, 4 KiB, 8 KiB) are crossed.
+pub fn set_scale(on: bool) {
+    SCALE.with(|s| s.set(on));
+}
+
+pub fn scale() -> bool {
+    SCALE.with(|s| s.get())
+}
+
+/// list length for length class `k` (index into LENS)
+fn lens(rng: &mut Rng, k: usize) -> usize {
+    let n = LENS[k];
+    if scale() && n >= 3 {
+        *rng.pick(&[85usize, 86, 100, 257, 341, 342, 343, 1025, 4097])
+    } else {
+        n
+    }
+}
+
 fn matrix(rng: &mut Rng) -> ([i32; 9], Matrix) {
     let m: [i32; 9] = if rng.bool() { UNITY } else { [rng.biased_i32(), rng.biased_i32(), rng.biased_i32(), rng.biased_i32(), rng.biased_i32(), rng.biased_i32(), rng.biased_i32(), rng.biased_i32(), rng.biased_i32()] };
     (m, Matrix { a: m[0], b: m[1], u: m[2], c: m[3], d: m[4], v: m[5], x: m[6], y: m[7], w: m[8] })
@@ -69,7 +94,7 @@ fn vtime(rng: &mut Rng, version: u8) -> u64 {
 }
 
 pub fn gen_ftyp(rng: &mut Rng, shape: usize) -> Case<FtypBox> {
-    let n = LENS[shape % 5];
+    let n = lens(rng, shape % 5);
     let f = FtypF { major: rnd4(rng), minor: rng.biased_u32(), brands: (0..n).map(|_| rnd4(rng)).collect() };
     Case {
         shape: format!("ftyp brands{}", n),
@@ -177,7 +202,7 @@ pub fn gen_dinf(rng: &mut Rng, shape: usize) -> Case<DinfBox> {
 macro_rules! table_gen {
     ($fname:ident, $lib:ident, $name:expr, $mk_entry:expr, $to_lib:expr, $enc:ident) => {
         pub fn $fname(rng: &mut Rng, shape: usize) -> Case<$lib> {
-            let n = LENS[shape % 5];
+            let n = lens(rng, shape % 5);
             let (v, fl) = (rng.biased_u8(), rng.biased(24) as u32);
             let e: Vec<_> = (0..n).map(|_| $mk_entry(rng)).collect();
             Case { shape: format!("{} n{}", $name, n), value: $lib { version: v, flags: fl, entries: e.iter().map($to_lib).collect() }, refbox: $enc(v, fl, &e), nontrivial: n > 0 }
@@ -192,7 +217,7 @@ table_gen!(gen_stco, StcoBox, "stco", |r: &mut Rng| r.biased_u32(), |e: &u32| *e
 table_gen!(gen_co64, Co64Box, "co64", |r: &mut Rng| r.biased(64), |e: &u64| *e, enc_co64);
 
 pub fn gen_stsc(rng: &mut Rng, shape: usize) -> Case<StscBox> {
-    let n = LENS[shape % 5];
+    let n = lens(rng, shape % 5);
     let (v, fl) = (rng.biased_u8(), rng.biased(24) as u32);
     // entries with increasing first_chunk and small counts so that the derived first_sample
     // (which the struct stores) is well defined
@@ -219,7 +244,7 @@ pub fn gen_stsz(rng: &mut Rng, shape: usize) -> Case<StszBox> {
         let (sz, cnt) = (1 + rng.biased_u32() % (u32::MAX - 1), rng.biased_u32());
         Case { shape: "stsz fixed".into(), value: StszBox { version: v, flags: fl, sample_size: sz, sample_count: cnt, sample_sizes: vec![] }, refbox: enc_stsz(v, fl, sz, cnt, &[]), nontrivial: true }
     } else {
-        let n = LENS[shape % 5];
+        let n = lens(rng, shape % 5);
         let sizes: Vec<u32> = (0..n).map(|_| rng.biased_u32()).collect();
         Case { shape: format!("stsz table n{}", n), value: StszBox { version: v, flags: fl, sample_size: 0, sample_count: n as u32, sample_sizes: sizes.clone() }, refbox: enc_stsz(v, fl, 0, n as u32, &sizes), nontrivial: n > 0 }
     }
@@ -227,7 +252,7 @@ pub fn gen_stsz(rng: &mut Rng, shape: usize) -> Case<StszBox> {
 
 pub fn gen_elst(rng: &mut Rng, shape: usize) -> Case<ElstBox> {
     let version = (shape % 2) as u8;
-    let n = LENS[(shape / 2) % 5];
+    let n = lens(rng, (shape / 2) % 5);
     let fl = rng.biased(24) as u32;
     let e: Vec<ElstEntryF> = (0..n).map(|_| ElstEntryF { segment_duration: vtime(rng, version), media_time: vtime(rng, version), rate_int: rng.biased_u16(), rate_frac: rng.biased_u16() }).collect();
     Case {
@@ -310,7 +335,7 @@ pub fn gen_tfhd(rng: &mut Rng, shape: usize) -> Case<TfhdBox> {
 /// all 2^6 flag combinations x list lengths
 pub fn gen_trun(rng: &mut Rng, shape: usize) -> Case<TrunBox> {
     let bits = shape % 64;
-    let n = LENS[(shape / 64) % 5];
+    let n = lens(rng, (shape / 64) % 5);
     let mk = |on: bool, rng: &mut Rng| -> Option<Vec<u32>> { if on { Some((0..n).map(|_| rng.biased_u32()).collect()) } else { None } };
     let f = TrunF {
         version: (bits & 1) as u8,
@@ -383,7 +408,10 @@ pub fn gen_moof(rng: &mut Rng, shape: usize) -> Case<MoofBox> {
 
 pub fn gen_emsg(rng: &mut Rng, shape: usize) -> Case<EmsgBox> {
     let version = (shape % 2) as u8;
-    let n = [0usize, 1, 7, 300][(shape / 2) % 4];
+    let mut n = [0usize, 1, 7, 300][(shape / 2) % 4];
+    if scale() && n == 300 {
+        n = *rng.pick(&[8191usize, 8193, 9000, 70_000]);
+    }
     let scheme = gen_name(rng, [0usize, 3, 40][(shape / 8) % 3]);
     let value = gen_name(rng, [0usize, 1, 9][(shape / 24) % 3]);
     let f = EmsgF { version, flags: rng.biased(24) as u32, timescale: rng.biased_u32(), presentation_time: rng.biased(64), presentation_time_delta: rng.biased_u32(), event_duration: rng.biased_u32(), id: rng.biased_u32(), scheme: scheme.as_bytes().to_vec(), value: value.as_bytes().to_vec(), data: rng.bytes(n) };
@@ -417,7 +445,16 @@ pub fn gen_avcc(rng: &mut Rng, shape: usize) -> Case<AvcCBox> {
         let l = *rng.pick(&[0usize, 1, 4, 30, 300]);
         rng.bytes(l)
     };
-    let f = AvcCF { version: rng.biased_u8(), profile: rng.biased_u8(), compat: rng.biased_u8(), level: rng.biased_u8(), length_size_minus_one: rng.below(4) as u8, sps: (0..ns).map(|_| nal(rng)).collect(), pps: (0..np).map(|_| nal(rng)).collect() };
+    let mut f = AvcCF { version: rng.biased_u8(), profile: rng.biased_u8(), compat: rng.biased_u8(), level: rng.biased_u8(), length_size_minus_one: rng.below(4) as u8, sps: (0..ns).map(|_| nal(rng)).collect(), pps: (0..np).map(|_| nal(rng)).collect() };
+    if scale() {
+        // one parameter set of each kind near the limit of its 16-bit length prefix
+        for set in [&mut f.sps, &mut f.pps] {
+            if let Some(first) = set.first_mut() {
+                let l = *rng.pick(&[9000usize, 40_000, 65_533, 65_534, 65_535]);
+                *first = rng.bytes(l);
+            }
+        }
+    }
     Case {
         shape: format!("avcC sps{} pps{}", ns, np),
         value: AvcCBox {
@@ -449,8 +486,9 @@ pub fn gen_hvcc(rng: &mut Rng, shape: usize) -> Case<HvcCBox> {
     let na = [0usize, 1, 2, 3][shape % 4];
     let arrays: Vec<HvcCArrayF> = (0..na)
         .map(|_| {
-            let nn = *rng.pick(&[0usize, 1, 2, 5]);
-            HvcCArrayF { completeness: rng.bool(), nal_type: rng.below(64) as u8, nalus: (0..nn).map(|_| { let l = *rng.pick(&[0usize, 1, 10, 200]); rng.bytes(l) }).collect() }
+            let nn = if scale() { *rng.pick(&[1usize, 2, 5, 300]) } else { *rng.pick(&[0usize, 1, 2, 5]) };
+            let big = scale() && nn <= 5;
+            HvcCArrayF { completeness: rng.bool(), nal_type: rng.below(64) as u8, nalus: (0..nn).map(|_| { let l = if big { *rng.pick(&[200usize, 40_000, 65_535]) } else { *rng.pick(&[0usize, 1, 10, 200, 250]) }; rng.bytes(l) }).collect() }
         })
         .collect();
     let f = HvcCF {
